@@ -106,6 +106,10 @@ def run_case(rng, idx, tier):
             viol.append({"key": dict(key0, kind="relation-violated", relation="return_details=True gives the same wrenches"), "err": ed,
                          "msg": "contact_forces(%s,%s, return_details=True): wrenches differ from the default call by %.3g (relative)" % (k1, k2, ed)})
         det = rd[3]
+        if isinstance(det, dict) and "contact_forces" in det:
+            # coarse contact: with a dozen polygons one tetrahedron pair whose thresholded decision flips under the
+            # 1e-16 perturbation of a re-expression already moves the force by more than 5 % (K32)
+            key0["few_polygons"] = bool(len(det["contact_forces"]) <= 20)
         if hit and isinstance(det, dict) and "contact_forces" in det:
             fs = np.sum(np.asarray(det["contact_forces"], float), axis=0)
             e2 = float(np.linalg.norm(fs - w21[:3])) / f
